@@ -4,6 +4,7 @@
   commits, rotation, truncation, nested crashes — is carried by the crash suite's ghost-state monitors)
 -/
 import RaftWal.Proofs.SegmentTorn
+import RaftWal.Proofs.CrashCorollaries
 namespace RaftWal.C01
 open RaftWal
 
@@ -48,5 +49,33 @@ theorem visible_only_after_sync (w : Writer) (file : Bytes) (es : List (Nat × B
         · simp at h
         · simp only [Prod.mk.injEq, true_and] at h
           rw [← h.1]
+
+/-! ## WAL level: the durability protocol (Model/Crash.lean — meta commits, file creation, rotation, truncation, Open,
+    tied to wal.go by the crash suite's action-by-action and image-by-image correspondence).  `Crash.QuiescentS` is
+    the invariant of a live process between calls; it holds after Open on an empty directory, after every completed
+    call and after every recovery (`Crash.init_quiescentS`, `Crash.call_refines_corrected`, `Crash.crash_safe_corrected`). -/
+
+/-- **every entry in the log survives every crash of every later call that does not delete it** — appends (with
+    rotation or base reset), truncations, stable writes, cut at any I/O boundary by a process crash or by a power loss
+    with any choice of surviving un-fsynced batches and directory entries, recovered by any number of Opens that are
+    themselves cut -/
+theorem entries_survive_any_crash (d : Crash.Disk) (hq : Crash.QuiescentS d) (op : Crash.Op) (hok : op.ok d) (k : Nat)
+    (c : Crash.CrashKind) (d1 d' : Crash.Disk) (hr : Crash.ReachRec (Crash.crashAfter d (Crash.prog d op) k c) d1)
+    (ho : Crash.openResult d1 = some d') (p : Nat × Crash.Entry) (hp : p ∈ Crash.absLog d)
+    (hnr : op.removes p.1 = false) : p ∈ Crash.absLog d' :=
+  Crash.entries_survive d hq op hok k c d1 d' hr ho p hp hnr
+
+/-- **once StoreLogs has returned** the log every recovery comes back with is the old log followed by exactly the
+    appended entries, and the recovered state is again one from which all of this holds -/
+theorem acked_append_survives_any_crash (d : Crash.Disk) (hq : Crash.QuiescentS d) (first : Nat) (es : List Crash.Entry)
+    (s : Bool) (hok : (Crash.Op.store first es s).ok d) (k : Nat) (c : Crash.CrashKind) (d1 d' : Crash.Disk)
+    (hr : Crash.ReachRec (Crash.crashAfter d (Crash.prog d (.store first es s)) k c) d1)
+    (ho : Crash.openResult d1 = some d') (hack : Crash.ackPos (Crash.prog d (.store first es s)) < k) :
+    Crash.absLog d' = Crash.absLog d ++ Crash.appended first es ∧ Crash.QuiescentS d' :=
+  Crash.acked_append_survives d hq first es s hok k c d1 d' hr ho hack
+
+/-- the hypotheses are met by the state Open leaves on an empty directory -/
+theorem protocol_init : ∃ d, Crash.openResult Crash.emptyDisk = some d ∧ Crash.QuiescentS d ∧ Crash.absLog d = [] :=
+  Crash.init_quiescentS
 
 end RaftWal.C01
